@@ -57,9 +57,22 @@ Resolve(r) ==
 Reportable == {"AttributeError", "NameError", "KeyError", "UnboundLocalError", "ImportError", "ModuleNotFoundError",
                "ThresholdAssertion", "ForeignNotImplemented", "RuntimeError", "NotImplementedError"}
 
+(***************************************************************************)
+(* Beyond the listed properties: the MAY-dependency graph of the shipped   *)
+(* forms (line -> lines some path of it reads).  Peeling lines whose       *)
+(* dependencies are all peeled leaves exactly the lines on or behind a     *)
+(* reference cycle; an empty core means every demanded line can eventually *)
+(* be evaluated (no structural deadlock).  Reported as evidence only.      *)
+(***************************************************************************)
+Deps == Facts.deps                       \* [line -> Seq of lines]
+RECURSIVE Peel(_)
+Peel(S) == LET R == {n \in S : \A j \in 1..Len(Deps[n]) : Deps[n][j] \notin S} IN IF R = {} THEN S ELSE Peel(S \ R)
+CycleCore == Peel(DOMAIN Deps)
+
 VARIABLE k
 Init == k = 0
 Next == /\ k < Len(Facts.refs) + Len(Facts.excs) /\ k' = k + 1
+        /\ (k > 0 \/ PrintT("C10|core|0|" \o ToString(CycleCore) \o "|"))
         /\ IF k < Len(Facts.refs)
            THEN LET r == Facts.refs[k + 1] m == Resolve(r) IN
                 m = "" \/ PrintT("C10|ref|" \o ToString(k + 1) \o "|" \o m \o "|")
